@@ -93,6 +93,7 @@ type State struct {
 	mutexes    map[string]int
 	mustNotBlock int
 	preemptOn    bool
+	uuidSeq      int
 }
 
 type decRec struct {
@@ -143,7 +144,7 @@ func (st *State) clone() *State {
 	n.sigs = append([]sigReg(nil), st.sigs...)
 	n.badSigs = append([]*Term(nil), st.badSigs...)
 	n.decs = append([]decRec(nil), st.decs...)
-	n.curGo, n.goSeq, n.syncVer, n.mustNotBlock, n.preemptOn = st.curGo, st.goSeq, st.syncVer, st.mustNotBlock, st.preemptOn
+	n.curGo, n.goSeq, n.syncVer, n.mustNotBlock, n.preemptOn, n.uuidSeq = st.curGo, st.goSeq, st.syncVer, st.mustNotBlock, st.preemptOn, st.uuidSeq
 	for _, g := range st.gos {
 		n.gos = append(n.gos, &Gor{id: g.id, frames: cloneFrames(g.frames), blockedAt: g.blockedAt, settling: g.settling})
 	}
